@@ -172,6 +172,9 @@ def _reduce_cs(p):
 
 
 def run(ctx):
+    from ..shared import state_alias_rule as _state_alias_rule
+
+    _state_alias_rule(ctx, "R9.10", scope=lambda f, _s=("EasyFEA.FEM._group_elem", "EasyFEA.FEM._mesh", "EasyFEA.Simulations._simu", "EasyFEA.Simulations._beam"): f.module.name.startswith(_s), min_instances=50)
     repo = ctx.repo
     ctx.level = "other"
     ctx.explanation = (
